@@ -62,10 +62,13 @@ def gen(tier, calibrate=False):
             for y in PB_Q:
                 for fk in ["REMOVEBUF", "ADDBUFREF"]:
                     obs.append(mk(x + y, (A, fk), **tmo(fk)))
+        # evbuffer_expand_fast_'s "replace the empty chains" path and its restore after a failed allocation: last data chain with
+        # 1 spare byte + an uncommitted empty 16-byte chain (reserve without commit), then a two-extent reserve of up to 18 bytes
+        obs.append(mk([(A, "ADD", 15), (A, "RESERVE_ONLY", 8)], (A, "RESERVE_COMMIT2"), **tmo("RESERVE_COMMIT2")))
         obs.append(mk([(A, "ADD", 3), (B, "ADD", 17)], (A, "ADDBUF"), **tmo("ADDBUF")))
         obs.append(mk([(A, "ADD", 3), (B, "ADD", 17)], (A, "PREPENDBUF"), **tmo("ADDBUF")))
     else:
-        for pre in C12.PREFIX_1 + C12.PREFIX_2[:9] + C12.PREFIX_3[:1]:
+        for pre in C12.PREFIX_1 + C12.PREFIX_2[:9] + C12.PREFIX_3[:1] + [[(A, "ADD", 15), (A, "RESERVE_ONLY", 8)]]:
             for fk in ALLOC_1:
                 if fk == "ADD_IOVEC" and pre not in ([], [(A, "ADD", 15)], [(A, "REF", 3)]): continue
                 obs.append(mk(pre, (A, fk), **tmo(fk)))
